@@ -20,6 +20,8 @@ import (
 	"github.com/relex/slog-agent/input/sysloginput"
 	"github.com/relex/slog-agent/input/syslogparser"
 	"github.com/relex/slog-agent/transform/taddfields"
+	"github.com/relex/slog-agent/transform/tdrop"
+	"github.com/relex/slog-agent/util"
 
 	"slogverif/seq"
 )
@@ -130,12 +132,20 @@ func newInstance(e *env) *instance {
 }
 
 func (e *env) inputConfig() *sysloginput.Config {
-	return &sysloginput.Config{
-		LevelMapping: e.mapping,
-		Extractions: []bconfig.LogTransformConfigHolder{
-			{Location: "harness", Value: &taddfields.Config{Fields: map[string]string{"task": extractedMark}}},
-		},
+	ex := []bconfig.LogTransformConfigHolder{
+		{Location: "harness", Value: &taddfields.Config{Fields: map[string]string{"task": extractedMark}}},
 	}
+	// extraction steps with a metric label register their own labelled counters on the connection's input counter set, behind
+	// the parser's "overflow": six of them (they match nothing) take the set of labels past any small initial capacity
+	for i := 1; i <= 6; i++ {
+		var d tdrop.Config
+		text := fmt.Sprintf("type: drop\nmatch:\n  app: harness-never-matches-%d\npercentage: 100\nmetricLabel: harness-label-%d\n", i, i)
+		if err := util.UnmarshalYamlString(text, &d); err != nil {
+			panic(err)
+		}
+		ex = append(ex, bconfig.LogTransformConfigHolder{Location: "harness", Value: &d})
+	}
+	return &sysloginput.Config{LevelMapping: e.mapping, Extractions: ex}
 }
 
 func (e *env) newParser(alloc *base.LogAllocator, counter *base.LogInputCounterSet) (base.LogParser, error) {
